@@ -20,7 +20,7 @@ UNSAT, SAT, UNKNOWN = "unsat", "sat", "unknown"
 WALL_FACTOR = 100
 STAGES = []      # diagnostics of the obligation being discharged: (stage, answer, reason, CPU seconds, wall seconds)
 OVERLOAD = [False]   # an attempt was ended by the wall-clock safety net instead of its CPU budget: the machine is overloaded
-SCALE = float(os.environ.get("VERIF_BUDGET_SCALE", "1") or 1)    # < 1 emulates a slower machine (margin test: tools/refresh.sh --margin)
+SCALE = float(os.environ.get("VERIF_BUDGET_SCALE", "1") or 1)    # < 1 emulates a slower machine (margin test: tools/margin.sh)
 
 
 def cpu_check(s, budget_ms):
